@@ -608,6 +608,16 @@ pub fn res_all() -> Vec<Scenario> {
             "f = {open},\ng = #'int {{ [f, 0, 0x0d] __file_write__ }},\nc = @{{ !#(#'int -> 'int) =h, 1 h }},\n&g c,\n!c", open = open)),
         mk("send_closure_then_use", &format!(
             "f = {open},\ng = #'int {{ [f, 0, 0x0d] __file_write__ }},\nc = @{{ !#(#'int -> 'int) =h, !'bin }},\n&g c,\n[f, 0, 0x01] __file_write__", open = open)),
+        // a child opens, hands the handle to a keeper, and terminates (awaited) right away: the
+        // transfer and the child's completion report can arrive in the same environment step
+        mk("child_sends_then_dies", &format!(
+            "'hd = Hold[\\File]\n'kt = (@'hd)\nk = @{{ !#'hd {{ =Hold[f] => [f, 0, 0x07] __file_write__ }} }},\nc = &k @'kt {{ =kp => f = {open}, Hold[f] kp, 5 }},\nx = !c,\ny = !k,\n[x, y]", open = open)),
+        mk("child_spawns_heir_then_dies", &format!(
+            "c = @{{ f = {open}, h = @{{ !'int, [f, 0, 0x09] __file_write__ }}, &h }},\nh = !c,\n1 h,\n!h", open = open)),
+        // TCP: an accepted socket is a new resource created by an operation on the listener
+        mk("tcp_accept_owner_dies", "c = @{ l = [8080, 4] __tcp_listen__, s = l __tcp_listener_accept__, [s, 0x01] __tcp_socket_write__ },\n!c"),
+        mk("tcp_accept_returned", "c = @{ l = [8080, 4] __tcp_listen__, l __tcp_listener_accept__ },\ns = !c,\n[s, 0x01] __tcp_socket_write__"),
+        mk("tcp_accept_sent", "'sk = Sock[\\TcpSocket]\nc = @{ w = @{ !#'sk { =Sock[s] => [s, 0x0102] __tcp_socket_write__ } }, l = [8080, 4] __tcp_listen__, s = l __tcp_listener_accept__, Sock[s] w, !w },\n!c"),
         // handle left in the mailbox of a process that terminates without receiving it
         mk("left_in_mailbox", &format!(
             "'hd = Hold[\\File]\nh = @{{ !'int =x, !#'hd, x }},\nf = {open},\nHold[f] h,\n5 h,\n!h", open = open)),
